@@ -141,21 +141,53 @@ pub fn precreate_db(path: &Path, site: [u8; 16]) -> rusqlite::Result<()> {
     Ok(())
 }
 
-/// A plain cr-sqlite database with corrosion's migrations and `VSCHEMA`, site id `site_id(i)`.
-pub fn open_plain_db(dir: &Path, i: usize) -> rusqlite::Result<CrConn> {
-    let path = dir.join(format!("db{i}.sqlite"));
-    precreate_db(&path, site_id(i))?;
-    let mut conn = CrConn::init(rusqlite::Connection::open(&path)?)?;
-    setup_conn(&conn)?;
-    let clock = Arc::new(uhlc::HLC::default());
-    migrate(clock, &mut conn)?;
-    let mut schema = parse_sql(VSCHEMA).expect("schema parses");
+fn build_template(path: &Path) -> rusqlite::Result<()> {
+    let _ = std::fs::remove_file(path);
     {
-        let tx = conn.transaction()?;
-        apply_schema(&tx, &Schema::default(), &mut schema).expect("schema applies");
-        tx.commit()?;
+        let mut conn = CrConn::init(rusqlite::Connection::open(path)?)?;
+        setup_conn(&conn)?;
+        let clock = Arc::new(uhlc::HLC::default());
+        migrate(clock, &mut conn)?;
+        let mut schema = parse_sql(VSCHEMA).expect("schema parses");
+        {
+            let tx = conn.transaction()?;
+            apply_schema(&tx, &Schema::default(), &mut schema).expect("schema applies");
+            tx.commit()?;
+        }
+        // leave a single self-contained file behind
+        conn.execute_batch("PRAGMA wal_checkpoint(TRUNCATE);")?;
+        let _: String = conn.query_row("PRAGMA journal_mode = DELETE", [], |r| r.get(0))?;
     }
+    Ok(())
+}
+
+/// A plain cr-sqlite database with corrosion's migrations and `VSCHEMA`, site id `site_id(i)`.
+/// Databases are stamped out from a template file built once per process (opening a fresh one
+/// with all migrations costs ~80 ms, a copy ~2 ms).
+pub fn open_plain_db(dir: &Path, i: usize) -> rusqlite::Result<CrConn> {
+    static TEMPLATE: std::sync::OnceLock<PathBuf> = std::sync::OnceLock::new();
+    let tpl = TEMPLATE.get_or_init(|| {
+        let p = tmp_root().join(format!("template-{}.sqlite", std::process::id()));
+        build_template(&p).expect("template database");
+        p
+    });
+    let path = dir.join(format!("db{i}.sqlite"));
+    std::fs::copy(tpl, &path).map_err(|e| rusqlite::Error::ToSqlConversionFailure(Box::new(e)))?;
+    {
+        let raw = rusqlite::Connection::open(&path)?;
+        raw.execute("UPDATE crsql_site_id SET site_id = ? WHERE ordinal = 0", [site_id(i).to_vec()])?;
+    }
+    let conn = CrConn::init(rusqlite::Connection::open(&path)?)?;
+    setup_conn(&conn)?;
     Ok(conn)
+}
+
+/// removes the per-process template (call from `Prop::end`)
+pub fn cleanup_template() {
+    let p = tmp_root().join(format!("template-{}.sqlite", std::process::id()));
+    let _ = std::fs::remove_file(&p);
+    let _ = std::fs::remove_file(p.with_extension("sqlite-wal"));
+    let _ = std::fs::remove_file(p.with_extension("sqlite-shm"));
 }
 
 /// One cr-sqlite change in canonical text form.
